@@ -4,7 +4,7 @@
 From Coq Require Import ZifyBool Permutation Sorted.
 From V.Lib Require Import Base MachInt.
 From V.Gen Require Import C17Consts.
-From V.C17 Require Import Model Spec Corr Wf ProofsArith ProofsShuffle ProofsAnchor ProofsClassify ProofsCanon ProofsPerm ProofsWake ProofsWake2 ProofsShift ProofsRebuild.
+From V.C17 Require Import Model Spec Corr Wf ProofsArith ProofsShuffle ProofsAnchor ProofsClassify ProofsCanon ProofsPerm ProofsWake ProofsWake2 ProofsShift ProofsRebuild ProofsPlumb.
 Local Open Scope Z_scope.
 
 (** Every operation is bridged. For wake-ups the harness-side brute-force value [bf] that the
@@ -386,4 +386,11 @@ Proof.
       destruct c, c'; cbn in H3; try discriminate; [apply Z.eqb_eq in H3; subst|]; reflexivity. }
     subst row'.
     apply (rebuild_ok_model oc iv cap nu63 funding tip pend ws ds ltac:(lia) ltac:(lia) ltac:(lia) ltac:(lia) Hpend' Hds row M).
+  - (* Plumb *)
+    rewrite !andb_true_iff in Hwf. destruct Hwf as [[_ HI] Hcfg]. unfold nz32 in *.
+    assert (o = scheduling_params iv cfg).
+    { destruct (scheduling_params iv cfg) as [[[[a b] c0] d] e0], o as [[[[a' b'] c'] d'] e']. unfold quint_eqb in Hrun.
+      rewrite !andb_true_iff in Hrun. destruct Hrun as [[[[H1 H2] H3] H4] H5]. apply Z.eqb_eq in H1, H2, H3, H4, H5. subst. reflexivity. }
+    subst o. apply params_ok_model; [lia|].
+    destruct cfg as [[[[a ca] b] cb]|]; [|exact Logic.I]. cbn. lia.
 Qed.
